@@ -146,10 +146,10 @@ def buckets(paths):
             nb[sig] += 1
         elif r["cls"] == "fail":
             st = re.sub(r"\d+", "N", r["status"])
-            fid = widefind.classify({"asts": r["asts"], "text": r["text"], "default": r["default"]}, r["tn"], r["syn"], r["status"], "")
+            fid = widefind.classify({"asts": r["asts"], "text": r["text"], "default": r["default"]}, r["tn"], r["syn"], r["status"], "", (r.get("facts") or "-").split(","))
             b[("fail", r["syn"], st, fid)].append(r)
         elif r["cls"] == "crash":
-            fid = widefind.classify({"asts": r.get("asts", {}), "text": r.get("text", ""), "default": r.get("default")}, r.get("tn"), r.get("syn"), "CRASH", r["err"]) if r.get("tn") else None
+            fid = widefind.classify({"asts": r.get("asts", {}), "text": r.get("text", ""), "default": r.get("default")}, r.get("tn"), r.get("syn"), "HANG" if r["kind"] == "HANG" else "CRASH", r["err"], (r.get("facts") or "-").split(",")) if r.get("tn") else None
             b[("crash", r.get("stage"), r.get("syn"), r["kind"][:60], tuple(r["frames"][:4]), fid)].append(r)
             if not r.get("ast"):
                 print("CRASH without type:", r["stage"], r["rc"], r["err"][-600:])
